@@ -5,6 +5,8 @@ value spec (JSON-able):
     ["bytes", latin1-text]           bytes value
     ["probe", id, retspec]           logging callable; returns built(retspec)
     ["raiser", id, excname, msg]     logging callable that raises
+    ["probeseq", id, [retspec...]]   logging callable; k-th call returns the
+                                     k-th value (the last one repeats)
     ["probef", id]                   logging callable f(*args) -> args[0]
     ["obj", {attr: spec}]            plain object with attributes
     ["map", {key: spec}]             dict
@@ -83,11 +85,16 @@ class LazySeq:
 class Probe:
     """Logging callable with a stable text form."""
 
-    def __init__(self, world, ident, ret):
+    def __init__(self, world, ident, ret, seq=False):
         self._world, self._ident, self._ret = world, ident, ret
+        self._seq, self._n = seq, 0
 
     def __call__(self):
         self._world.point(self._ident)
+        if self._seq:
+            k = min(self._n, len(self._ret) - 1)
+            self._n += 1
+            return self._world.build(self._ret[k])
         return self._world.build(self._ret)
 
     def __repr__(self):
@@ -138,6 +145,8 @@ class World:
             world = self
 
             return Probe(world, ident, ret)
+        if k == 'probeseq':
+            return Probe(self, spec[1], spec[2], seq=True)
         if k == 'probef':
             # logging callable with arguments; returns its first argument
             ident = spec[1]
